@@ -35,3 +35,21 @@ CHECKS['C16'] = dict(
           dict(name='in_newline', harness='c16_escape.cc', units=_C16_UNITS, defines=['MODE_NEWLINE'], reach=['several-names', 'one-name'],
                quick=dict(defines=['VERIF_NAMES=2', 'VERIF_LEN=2'], bounds='$in_newline with 1..2 explicit inputs, names of 1..2 bytes'),
                thorough=dict(defines=['VERIF_NAMES=3', 'VERIF_LEN=2'], bounds='$in_newline with 1..3 explicit inputs, names of 1..2 bytes', limits=dict(time=3000, max_paths=2000000)))])
+
+CHECKS['C15'] = dict(
+    title='compiler depfiles are read back as the same file names',
+    level_text='Bounded symbolic execution of the real DepfileParser::Parse (re2c scanner and rule bookkeeping) on depfile text produced by an encoder implementing GCC/Clang escaping from symbolic file names and a symbolic layout; on every path the solver is asked for names/layout for which outs_/ins_ differ from the encoded names, and for ill-formed depfiles that are accepted.',
+    level_note='Trusted: IR generation and interpreter (cross-checked natively per run), z3, the 12-line encoder modelled on GCC mkdeps munge(). Names: bytes 0x20..0xFF except DEL, not ending in backslash or colon, no backslash-colon inside (not representable / compilers disagree). Bounds per job.',
+    assumptions=['names over printable ASCII and high bytes; not ending in a backslash or a colon; no backslash directly before a colon', 'a dependency is not also a target of the same depfile (except in the rejection job)', 'bounds on the number and length of names as stated per job'],
+    jobs=[dict(name='roundtrip1', harness='c15_depfile.cc', units=['depfile_parser'], stubs=False, defines=['CONCRETE_TARGET'], reach=['accepted', 'repeated-dep'],
+               quick=dict(defines=['VERIF_D=1', 'VERIF_L=3'], bounds='target obj/o.o, 1 dependency of 1..3 symbolic bytes, layouts {same line, continuation, further rule} x {LF, CRLF} x trailing blank x final newline x repeated dependency x colon style'),
+               thorough=dict(defines=['VERIF_D=1', 'VERIF_L=4'], bounds='1 dependency of 1..4 symbolic bytes, all layouts', limits=dict(time=3000, max_paths=3000000))),
+          dict(name='roundtrip2', harness='c15_depfile.cc', units=['depfile_parser'], stubs=False, defines=['CONCRETE_TARGET'], reach=['accepted', 'repeated-dep'],
+               quick=dict(defines=['VERIF_D=2', 'VERIF_L=1'], bounds='target obj/o.o, 1..2 dependencies of 1 symbolic byte, all layouts'),
+               thorough=dict(defines=['VERIF_D=3', 'VERIF_L=2'], bounds='1..3 dependencies of 1..2 symbolic bytes, all layouts', limits=dict(time=3000, max_paths=3000000))),
+          dict(name='targets', harness='c15_depfile.cc', units=['depfile_parser'], stubs=False, reach=['accepted'],
+               quick=dict(defines=['VERIF_T=1', 'VERIF_D=1', 'VERIF_L=2', 'CONCRETE_DEP'], bounds='1 target of 1..2 symbolic bytes, dependency src/d.h'),
+               thorough=dict(defines=['VERIF_T=2', 'VERIF_D=1', 'VERIF_L=2'], bounds='1..2 targets, 1 dependency, 1..2 symbolic bytes each', limits=dict(time=3000, max_paths=3000000))),
+          dict(name='reject', harness='c15_depfile.cc', units=['depfile_parser'], stubs=False, defines=['MODE_REJECT'], reach=['no-colon', 'input-with-inputs'],
+               quick=dict(defines=['VERIF_T=1', 'VERIF_D=2', 'VERIF_L=1'], bounds='names of 1 symbolic byte'),
+               thorough=dict(defines=['VERIF_T=1', 'VERIF_D=2', 'VERIF_L=2'], bounds='names of 1..2 symbolic bytes', limits=dict(time=3000, max_paths=3000000)))])
